@@ -153,6 +153,11 @@ class SimT(Simulator):
         prefix = [["user", "Start"], ["tick", rng.choice([2, 3, 4, 6, 9, 14]), 0.1]]
         if rng.random() < 0.3:
             prefix += [["pv", "PV1", rng.choice([0.0, 4.0, 10.0])], ["tick", rng.choice([1, 3]), 0.1]]
+        stopping = rng.random() < 0.2
+        if stopping:
+            # a Stop / Restart is under way: the tick that is interleaved is its first, second or third tick (the one
+            # that renews the interpreter and the command manager is the second)
+            prefix += [["user", rng.choice(["Stop", "Stop", "Restart"])], ["tick", rng.choice([0, 1, 1, 2]), 0.1]]
         r = rng.random()
         if profile == "locked":
             r = 0.9 + 0.1 * rng.random()
@@ -164,6 +169,8 @@ class SimT(Simulator):
             req = ["inject", rng.choice(["Mark: i701", "Set1: 702 %", "Ramp: 3", "Mark: i703\nMark: i704"])]
         elif r < 0.85:
             req = ["user", rng.choice(["Pause", "Hold", "Stop", "Restart", "Unpause"])]
+        if stopping and rng.random() < 0.7:
+            req = ["user", rng.choice(["Start", "Start", "Pause", "Spin"])]
         else:
             req = [rng.choice(["cancel", "force"]), rng.randint(0, 20), "offered"]
         # fractions of the tick's / request's traced lines at which the baton changes hands
